@@ -215,7 +215,13 @@ Proof.
   destruct (A j id Hin0 ltac:(lia)) as [s0 [Hs Hl]]. rewrite Nat.sub_0_r in Hs. eauto.
 Qed.
 
-(* the invariant over runs: files belong to streams not yet closed, and are live *)
+Lemma files_ok_set_closed : forall m, mfiles_ok m -> mfiles_ok (set_closed m).
+Proof.
+  intros m A. unfold mfiles_ok in *. simpl. eapply files_ok_ext; [|exact A].
+  intros k s id Hs Hl. rewrite nth_error_map, Hs. simpl. eexists; split; [reflexivity|exact Hl].
+Qed.
+
+(* the invariant over runs: files belong to streams whose stream.close() has not run yet, and are live *)
 Definition files_inv (c : cstate) : Prop :=
   mfiles_ok (c_mux c) /\
   forall k id, In (k, id) (m_files (c_mux c)) -> closed_upto (c_wpc c) k = false.
@@ -239,7 +245,7 @@ Proof.
     apply (ph_locked _ P). exact Ew.
   - split; [exact A|intros; reflexivity].
   - split; [exact A|intros; reflexivity].
-  - split; [exact A|intros; reflexivity].
+  - split; [apply files_ok_set_closed; exact A|intros; reflexivity].
   - split; [exact A|intros; reflexivity].
   - split; [exact A|]. intros k id Hin. simpl. reflexivity.
   - destruct (Nat.ltb k (List.length (m_streams (c_mux c)))) eqn:Ek.
